@@ -486,6 +486,449 @@ def model_builders(ctx):
                               {"model": name, "L": L, "max_abs_diff": float(np.max(np.abs(A - B)))})
 
 
+
+# ----------------------------------------------------------------------------
+# SpinHam1D / spin_ham_mpo_tensor: term list -> MPO, sparse matrix, local terms
+
+
+def spin_table(S):
+    """spin-S operators in the basis m = S, S-1, ..., -S, from the textbook ladder formula
+    (independent of quimb.spin_operator)."""
+    D = int(round(2 * S + 1))
+    ms = [S - k for k in range(D)]
+    Sp = np.zeros((D, D), dtype=complex)
+    for k in range(1, D):  # S+ |m> = sqrt(S(S+1) - m(m+1)) |m+1>
+        m = ms[k]
+        Sp[k - 1, k] = math.sqrt(S * (S + 1) - m * (m + 1))
+    Sm = Sp.conj().T
+    return {"X": (Sp + Sm) / 2, "Y": (Sp - Sm) / 2j, "Z": np.diag(ms).astype(complex),
+            "+": Sp, "-": Sm, "I": np.eye(D, dtype=complex)}
+
+
+def embed_sites(mats, sites, L, D):
+    """kron of the given D x D matrices at the given (distinct) sites of an L-site chain, identity elsewhere."""
+    at = dict(zip(sites, mats))
+    out = np.array([[1.0 + 0j]])
+    for i in range(L):
+        out = np.kron(out, at.get(i, np.eye(D)))
+    return out
+
+
+def embed_pair(h, a, b, L, D):
+    """(D^2 x D^2) matrix h acting on the ordered pair of sites (a, b), a != b, not necessarily adjacent."""
+    T = np.asarray(h, dtype=complex).reshape(D, D, D, D)  # (out_a, out_b, in_a, in_b)
+    rest = [r for r in range(L) if r not in (a, b)]
+    full = T
+    for _ in rest:
+        full = np.multiply.outer(full, np.eye(D, dtype=complex))
+    pos_out = {a: 0, b: 1}
+    pos_in = {a: 2, b: 3}
+    for k, r in enumerate(rest):
+        pos_out[r] = 4 + 2 * k
+        pos_in[r] = 5 + 2 * k
+    perm = [pos_out[r] for r in range(L)] + [pos_in[r] for r in range(L)]
+    return full.transpose(perm).reshape(D**L, D**L)
+
+
+def glit(z):
+    z = complex(z)
+    return f"({zlit(round(z.real))}, {zlit(round(z.imag))})"
+
+
+def gmlit(M):
+    return "[" + "; ".join(glit(x) for x in np.asarray(M, dtype=complex).reshape(-1)) + "]"
+
+
+def is_gauss_int(A):
+    A = np.asarray(A, dtype=complex)
+    return bool(np.all(A.real == np.round(A.real)) and np.all(A.imag == np.round(A.imag)))
+
+
+def t1_lit(terms, mat):
+    return "[" + "; ".join(f"({glit(f)}, {gmlit(mat(a))})" for f, a in terms) + "]"
+
+
+def t2_lit(terms, mat):
+    return "[" + "; ".join(f"({glit(f)}, {gmlit(mat(a))}, {gmlit(mat(b))})" for f, a, b in terms) + "]"
+
+
+def row_lit(arr):  # (B, D, D)
+    return "[" + "; ".join(gmlit(x) for x in arr) + "]"
+
+
+def mat_lit(arr):  # (BL, B, D, D)
+    return "[" + "; ".join(row_lit(r) for r in arr) + "]"
+
+
+SPINHAM_HEADER = (
+    "From Coq Require Import ZArith List Bool.\nFrom QV Require Import C19.SpinHam.\n"
+    "Import ListNotations.\nOpen Scope Z_scope.\n"
+)
+
+
+def int_matrix_pool(rng, D):
+    """Gaussian-integer D x D operators: 2 * spin operators where integral, ladder / projector units, random."""
+    pool = []
+    if D == 2:
+        pool += [np.array([[0, 1], [1, 0]]), np.array([[0, -1j], [1j, 0]]), np.array([[1, 0], [0, -1]]),
+                 np.array([[0, 1], [0, 0]]), np.array([[0, 0], [1, 0]]), np.array([[0, 0], [0, 1]])]
+    else:
+        pool += [np.diag([1, 0, -1]), np.diag([1, 1], 1), np.diag([1, 1], -1), np.diag([1, 0, 0])]
+    for _ in range(3):
+        M = np.array([[rng.choice([0, 0, 1, -1, 2]) for _ in range(D)] for _ in range(D)], dtype=complex)
+        if rng.random() < 0.3:
+            M[rng.randrange(D), rng.randrange(D)] += 1j * rng.choice([1, -2])
+        pool.append(M)
+    return [np.asarray(M, dtype=complex) for M in pool]
+
+
+def spinham_case(rng, quick):
+    """one random SpinHam1D: default + site / bond specific terms; the two operators of a two-site term are
+    drawn independently (so most terms are NOT mirror symmetric)."""
+    S = rng.choice([0.5, 0.5, 0.5, 1.0])
+    D = int(2 * S + 1)
+    mode = rng.choice(["named", "named", "qarray", "qarray", "ndarray"])
+    cyclic = rng.random() < 0.3
+    L = rng.randint(3 if cyclic else 2, (4 if D == 3 else 5))
+    if mode == "named":
+        names = list("XYZ+-") + (["I"] if rng.random() < 0.2 else [])
+        tab = spin_table(S)
+        ops = {k: tab[k] for k in names}
+        fpool = [0.5, -1.0, 2.0, 0.25, 1.5, -0.75, 1.0, 0.5j, -1.0 + 0.5j]
+    else:
+        ops = {f"M{k}": M for k, M in enumerate(int_matrix_pool(rng, D))}
+        names = list(ops)
+        fpool = [1, -1, 2, -2, 3, 1j, -2j, 1 + 1j, 2 - 1j]
+
+    def fac():
+        f = rng.choice(fpool)
+        return f if isinstance(f, complex) and f.imag else float(f.real if isinstance(f, complex) else f)
+
+    def t1():
+        return (fac(), rng.choice(names))
+
+    def t2():
+        a = rng.choice(names)
+        b = rng.choice(names) if rng.random() < 0.85 else a
+        return (fac(), a, b)
+
+    one = [t1() for _ in range(rng.choice([0, 1, 1, 2, 3]))]
+    two = [t2() for _ in range(rng.choice([0, 1, 1, 2, 2, 3, 4]))]
+    if not one and not two:  # the empty Hamiltonian is not a documented input (build_sparse returns the int 0)
+        two = [t2()]
+    var1, var2 = {}, {}
+    if rng.random() < 0.5:
+        for i in rng.sample(range(L), rng.randint(1, min(2, L))):
+            var1[i] = [t1() for _ in range(rng.randint(1, 2))]
+    if rng.random() < 0.5:
+        for i in rng.sample(range(L - 1), rng.randint(1, min(2, L - 1))):
+            var2[(i, i + 1)] = [t2() for _ in range(rng.randint(1, 3))]
+    return {"S": S, "D": D, "mode": mode, "cyclic": cyclic, "L": L, "ops": ops, "one": one, "two": two,
+            "var1": var1, "var2": var2, "style": rng.randint(0, 3)}
+
+
+def spinham_desc(case):
+    d = {k: case[k] for k in ("S", "mode", "cyclic", "L", "style")}
+    d["one_site_terms"] = [(str(f), a) for f, a in case["one"]]
+    d["two_site_terms"] = [(str(f), a, b) for f, a, b in case["two"]]
+    d["site_specific"] = {str(k): [(str(f), a) for f, a in v] for k, v in case["var1"].items()}
+    d["bond_specific"] = {str(k): [(str(f), a, b) for f, a, b in v] for k, v in case["var2"].items()}
+    if case["mode"] != "named":
+        d["operators"] = {k: [[str(x) for x in row] for row in M.tolist()] for k, M in case["ops"].items()}
+    return d
+
+
+def spinham_build(case):
+    import quimb as qu
+    import quimb.tensor as qtn
+
+    mode = case["mode"]
+
+    def op(a):
+        if mode == "named":
+            return a
+        if mode == "qarray":
+            return qu.qarray(case["ops"][a].copy())
+        return case["ops"][a].copy()
+
+    B = qtn.SpinHam1D(S=case["S"], cyclic=case["cyclic"])
+    style = case["style"]
+    for k, (f, a, b) in enumerate(case["two"]):
+        if style == 1 and k % 2:
+            B -= (-f, op(a), op(b))
+        elif style == 2:
+            B.add_term(f, op(a), op(b))
+        else:
+            B += (f, op(a), op(b))
+    if style == 3:
+        B += (0.0, op(next(iter(case["ops"]))), op(next(iter(case["ops"]))))  # a zero term is dropped
+    for f, a in case["one"]:
+        if style == 1:
+            B -= (-f, op(a))
+        else:
+            B += (f, op(a))
+    for i, ts in case["var1"].items():
+        if style == 2:
+            B[i] = [(f, op(a)) for f, a in ts]
+        else:
+            for f, a in ts:
+                B[i] += (f, op(a))
+    for bond, ts in case["var2"].items():
+        if style == 2:
+            B[bond] = [(f, op(a), op(b)) for f, a, b in ts]
+        else:
+            for f, a, b in ts:
+                B[bond] += (f, op(a), op(b))
+    return B
+
+
+def spinham_reference(case, drop_closing_second=False):
+    """H = sum_i sum_(f,A) f A_i + sum_bonds sum_(f,A,B) f A_i B_{i+1}; the bond (L-1, 0) of a periodic chain
+    has A on site L-1 and B on site 0 and carries the default terms."""
+    L, D, ops = case["L"], case["D"], case["ops"]
+    H = np.zeros((D**L, D**L), dtype=complex)
+    for i in range(L):
+        for f, a in case["var1"].get(i, case["one"]):
+            H += f * embed_sites([ops[a]], [i], L, D)
+    for i in range(L - 1):
+        for f, a, b in case["var2"].get((i, i + 1), case["two"]):
+            H += f * embed_sites([ops[a], ops[b]], [i, i + 1], L, D)
+    if case["cyclic"]:
+        for f, a, b in case["two"]:
+            if drop_closing_second:
+                H += f * embed_sites([ops[a]], [L - 1], L, D)
+            else:
+                H += f * embed_sites([ops[a], ops[b]], [L - 1, 0], L, D)
+    return H
+
+
+def to_dense_any(x):
+    if hasattr(x, "toarray"):
+        x = x.toarray()
+    elif hasattr(x, "todense"):
+        x = x.todense()
+    return np.asarray(x)
+
+
+def mpo_site_arrays(mpo, L, cyclic):
+    """site tensors of an MPO as (left bond, right bond, ket, bra) arrays (ends of an open chain: one bond)"""
+    out = []
+    for i in range(L):
+        t = mpo[i]
+        k, b = mpo.upper_ind(i), mpo.lower_ind(i)
+        inds = []
+        if cyclic or i > 0:
+            inds.append(mpo.bond((i - 1) % L, i))
+        if cyclic or i < L - 1:
+            inds.append(mpo.bond(i, (i + 1) % L))
+        out.append(np.asarray(t.transpose(*inds, k, b).data, dtype=complex))
+    return out
+
+
+def spinham_stream(ctx):
+    """SpinHam1D term lists (asymmetric two-site terms, site / bond specific terms, spin 1/2 and 1, named
+    operators / qarrays / ndarrays, open and periodic) through build_mpo, build_sparse and build_local_ham
+    against an independent numpy sum of embedded operators: a TEST stream (tolerance 1e-10), not a theorem.
+    For Gaussian-integer operator arrays the site tensors of build_mpo are compared EXACTLY, inside Coq, with
+    the layout model C19/SpinHam.v (site_tensor / tensor_L / tensor_R / tensor_L_cyclic) whose meaning is
+    theorem C19_spinham_mpo_denotes_hamiltonian."""
+    rng = ctx.rng
+    cases, info = [], {}
+    for it in range(ctx.n(140, 1400)):
+        case = spinham_case(rng, ctx.quick)
+        desc = spinham_desc(case)
+        L, D, cyclic, mode = case["L"], case["D"], case["cyclic"], case["mode"]
+        bc = "cyclic" if cyclic else "open"
+        cls = "site_specific" if (case["var1"] or case["var2"]) else "uniform"
+        asym = any(a != b for _, a, b in case["two"] + [t for v in case["var2"].values() for t in v])
+        ctx.count(("spinham", it, desc), bool(case["two"] or case["var2"]))
+        ctx.bump(f"spinham:{bc}:{mode}:S={case['S']}")
+        ctx.bump("spinham:asymmetric_two_site_term" if asym else "spinham:mirror_symmetric_terms")
+        if it < 2:
+            ctx.sample(desc)
+        ref = spinham_reference(case)
+
+        def fail(key, what, **more):
+            ctx.violation(key, what, dict(case=desc, **more))
+
+        try:
+            B = spinham_build(case)
+        except Exception as e:
+            fail(f"spinham1d:add_term:raised:{type(e).__name__}", f"adding the terms raised {e}")
+            continue
+        # ---- MPO
+        mpo = None
+        try:
+            mpo = B.build_mpo(L)
+            M = np.asarray(mpo.to_dense())
+            if M.shape != ref.shape or not np.allclose(M, ref, atol=1e-10, rtol=0):
+                fail(f"spinham1d:build_mpo:{bc}:{cls}",
+                     "SpinHam1D.build_mpo(L).to_dense() differs from sum f A_i + sum f A_i B_{i+1} of its term list",
+                     representation="build_mpo", max_abs_diff=float(np.max(np.abs(M - ref))) if M.shape == ref.shape else None)
+        except Exception as e:
+            fail(f"spinham1d:build_mpo:{bc}:raised:{type(e).__name__}", f"build_mpo raised {e}")
+        # ---- sparse matrix
+        try:
+            Sp = to_dense_any(B.build_sparse(L))
+            if Sp.shape != ref.shape or not np.allclose(Sp, ref, atol=1e-10, rtol=0):
+                if cyclic and np.allclose(Sp, spinham_reference(case, drop_closing_second=True), atol=1e-10, rtol=0):
+                    key = "spinham1d:build_sparse:cyclic:closing_bond_second_operator_dropped"
+                else:
+                    key = f"spinham1d:build_sparse:{bc}:{cls}"
+                fail(key, "SpinHam1D.build_sparse(L) differs from sum f A_i + sum f A_i B_{i+1} of its term list",
+                     representation="build_sparse", max_abs_diff=float(np.max(np.abs(Sp - ref))) if Sp.shape == ref.shape else None)
+        except Exception as e:
+            fail(f"spinham1d:build_sparse:{bc}:raised:{type(e).__name__}", f"build_sparse raised {e}")
+        # ---- local terms (LocalHam1D needs a two-site term covering every site)
+        if case["two"]:
+            try:
+                lh = B.build_local_ham(L)
+                tot = np.zeros_like(ref)
+                for (a, b), h in lh.terms.items():
+                    tot += embed_pair(np.asarray(h), a, b, L, D)
+                if not np.allclose(tot, ref, atol=1e-10, rtol=0):
+                    fail(f"spinham1d:build_local_ham:{bc}:{cls}",
+                         "the terms of SpinHam1D.build_local_ham(L), each embedded on its ordered site pair, do not sum to the Hamiltonian of the term list",
+                         representation="build_local_ham", max_abs_diff=float(np.max(np.abs(tot - ref))))
+            except Exception as e:
+                if mode == "ndarray" and isinstance(e, TypeError):
+                    key = "spinham1d:build_local_ham:ndarray_operators:raised:TypeError"
+                else:
+                    key = f"spinham1d:build_local_ham:{bc}:raised:{type(e).__name__}"
+                fail(key, f"build_local_ham raised {type(e).__name__}: {e}", representation="build_local_ham")
+        # ---- exact layout correspondence (Gaussian-integer operator arrays)
+        if mode == "named" or mpo is None:
+            continue
+        try:
+            arrs = mpo_site_arrays(mpo, L, cyclic)
+        except Exception as e:
+            ctx.broken_obligation("correspondence:spinham_layout:site_arrays", f"{type(e).__name__}: {e}")
+            continue
+        if not all(is_gauss_int(a) for a in arrs):
+            ctx.broken_obligation("correspondence:spinham_layout:non_integer_entries", desc)
+            continue
+        mat = lambda a: case["ops"][a]
+        d = natlit(D)
+        v1 = "[" + "; ".join(f"({natlit(i)}, {t1_lit(ts, mat)})" for i, ts in case["var1"].items()) + "]"
+        v2 = "[" + "; ".join(f"({natlit(i)}, {t2_lit(ts, mat)})" for (i, _), ts in case["var2"].items()) + "]"
+        st = lambda i: f"(G_site_tensor {d} one two v1 v2 {natlit(i)})"
+        checks = []
+        for i, a in enumerate(arrs):
+            if cyclic:
+                checks.append(f"mat_eqb (G_L_cyclic {d} {st(i)}) {mat_lit(a)}" if i == 0 else f"mat_eqb {st(i)} {mat_lit(a)}")
+            elif i == 0:
+                checks.append(f"row_eqb (G_L {d} {st(i)}) {row_lit(a)}")
+            elif i == L - 1:
+                checks.append(f"row_eqb (G_R {d} {st(i)}) {row_lit(a)}")
+            else:
+                checks.append(f"mat_eqb {st(i)} {mat_lit(a)}")
+        cid = len(cases) + 1
+        info[cid] = desc
+        cases.append((cid, f"(let one : list (G * GM) := {t1_lit(case['one'], mat)} in "
+                           f"let two : list (G * GM * GM) := {t2_lit(case['two'], mat)} in "
+                           f"let v1 : list (nat * list (G * GM)) := {v1} in "
+                           f"let v2 : list (nat * list (G * GM * GM)) := {v2} in "
+                           + " && ".join(checks) + ")"))
+    failed, errors = ctx.coq_cases("spinham_sites", SPINHAM_HEADER, cases, shard=40)
+    for path, err in errors:
+        ctx.broken_obligation("correspondence:spinham_layout:" + path.split("/")[-1], err)
+    for c in failed[:6]:
+        ctx.broken_obligation("correspondence:spinham_layout:build_mpo_site_tensors_vs_model", info[c])
+    ctx.extra["spinham_layout_cases"] = len(cases)
+
+
+def spinham_tensor_stream(ctx):
+    """spin_ham_mpo_tensor called directly: every (|one|, |two|, |left|) up to a bound incl. left_two_site_terms
+    of a different length / None, which = None / 'M' / 'L' / 'R' / 'A', cyclic False / True.  Exact layout
+    correspondence with C19/SpinHam.v in Coq, plus a numerical test of what a 3-site chain made of these
+    tensors denotes (open: bonds `left` then `two`; periodic: uniform ring)."""
+    import quimb.tensor as qtn
+
+    smt = qtn.tensor_builder.spin_ham_mpo_tensor
+    rng = ctx.rng
+    cases, info = [], {}
+    for n1, n2, nl in itertools.product(range(3), range(4), [None, 0, 1, 2, 3]):
+        for rep in range(ctx.n(1, 4)):
+            D = rng.choice([2, 2, 3])
+            S = (D - 1) / 2
+            pool = int_matrix_pool(rng, D)
+            gf = lambda: complex(rng.choice([1, -1, 2, -2, 3]), rng.choice([0, 0, 0, 1, -2]))
+            rop = lambda: rng.choice(pool)
+            one = [(gf(), rop()) for _ in range(n1)]
+            two = [(gf(), rop(), rop()) for _ in range(n2)]
+            left = None if nl is None else [(gf(), rop(), rop()) for _ in range(nl)]
+            desc = {"S": S, "one": [(str(f), a.tolist()) for f, a in one], "two": [(str(f), a.tolist(), b.tolist()) for f, a, b in two],
+                    "left_two_site_terms": None if left is None else [(str(f), a.tolist(), b.tolist()) for f, a, b in left]}
+            desc = json_safe(desc)
+            ctx.count(("smt", n1, n2, nl, rep, D), n2 > 0 or bool(nl))
+            ctx.bump("spin_ham_mpo_tensor:direct")
+            try:
+                kw = dict(S=S, left_two_site_terms=left)
+                H = np.asarray(smt(one, two, **kw), dtype=complex)
+                HM = np.asarray(smt(one, two, which="M", **kw), dtype=complex)
+                HL = np.asarray(smt(one, two, which="L", **kw), dtype=complex)
+                HR = np.asarray(smt(one, two, which="R", **kw), dtype=complex)
+                A = [np.asarray(x, dtype=complex) for x in smt(one, two, which="A", **kw)]
+                HLc = np.asarray(smt(one, two, which="L", cyclic=True, **kw), dtype=complex)
+                HRc = np.asarray(smt(one, two, which="R", cyclic=True, **kw), dtype=complex)
+                Ac = [np.asarray(x, dtype=complex) for x in smt(one, two, which="A", cyclic=True, **kw)]
+            except Exception as e:
+                ctx.violation(f"spinham1d:spin_ham_mpo_tensor:raised:{type(e).__name__}", f"spin_ham_mpo_tensor raised {e}", desc)
+                continue
+            ident = lambda a: a
+            lt = two if left is None else left
+            tens = f"(G_tensor {natlit(D)} {t1_lit(one, ident)} {t2_lit(two, ident)} {t2_lit(lt, ident)})"
+            d = natlit(D)
+            checks = [f"mat_eqb {tens} {mat_lit(H)}", f"mat_eqb {tens} {mat_lit(HM)}", f"mat_eqb {tens} {mat_lit(A[1])}",
+                      f"mat_eqb {tens} {mat_lit(Ac[1])}", f"mat_eqb {tens} {mat_lit(HRc)}", f"mat_eqb {tens} {mat_lit(Ac[2])}",
+                      f"row_eqb (G_L {d} {tens}) {row_lit(HL)}", f"row_eqb (G_L {d} {tens}) {row_lit(A[0])}",
+                      f"row_eqb (G_R {d} {tens}) {row_lit(HR)}", f"row_eqb (G_R {d} {tens}) {row_lit(A[2])}",
+                      f"mat_eqb (G_L_cyclic {d} {tens}) {mat_lit(HLc)}", f"mat_eqb (G_L_cyclic {d} {tens}) {mat_lit(Ac[0])}"]
+            cid = len(cases) + 1
+            info[cid] = desc
+            cases.append((cid, " && ".join(checks)))
+            # what a 3-site chain of these tensors denotes (numerical test)
+            emb = lambda mats, sites: embed_sites(mats, sites, 3, D)
+            try:
+                T0 = np.asarray(smt(one, lt, S=S, which="L"), dtype=complex)          # right bond carries `left`
+                T1 = H                                                                   # left bond `left`, right bond `two`
+                T2 = np.asarray(smt(one, [], S=S, left_two_site_terms=two, which="R"), dtype=complex)
+                got = np.einsum("aij,abkl,bmn->ikmjln", T0, T1, T2).reshape(D**3, D**3)
+                want = sum((f * emb([a], [i]) for f, a in one for i in range(3)), np.zeros((D**3, D**3), dtype=complex))
+                want = want + sum((f * emb([a, b], [0, 1]) for f, a, b in lt), 0) + sum((f * emb([a, b], [1, 2]) for f, a, b in two), 0)
+                if not np.allclose(got, want, atol=1e-10, rtol=0):
+                    ctx.violation("spinham1d:spin_ham_mpo_tensor:open_chain_value",
+                                  "the 3-site open chain contracted from spin_ham_mpo_tensor's L / middle / R tensors is not the Hamiltonian of its term lists",
+                                  dict(desc, max_abs_diff=float(np.max(np.abs(got - want)))))
+                if left is None:
+                    got = np.einsum("caij,abkl,bcmn->ikmjln", Ac[0], Ac[1], Ac[2]).reshape(D**3, D**3)
+                    want = sum((f * emb([a], [i]) for f, a in one for i in range(3)), np.zeros((D**3, D**3), dtype=complex))
+                    for (u, v) in ((0, 1), (1, 2), (2, 0)):
+                        want = want + sum((f * emb([a, b], [u, v]) for f, a, b in two), 0)
+                    if not np.allclose(got, want, atol=1e-10, rtol=0):
+                        ctx.violation("spinham1d:spin_ham_mpo_tensor:periodic_chain_value",
+                                      "the 3-site periodic chain contracted from spin_ham_mpo_tensor(which='A', cyclic=True) is not the Hamiltonian of its term list",
+                                      dict(desc, max_abs_diff=float(np.max(np.abs(got - want)))))
+            except Exception as e:
+                ctx.violation(f"spinham1d:spin_ham_mpo_tensor:chain:raised:{type(e).__name__}", f"contracting the chain raised {e}", desc)
+    failed, errors = ctx.coq_cases("spinham_tensor", SPINHAM_HEADER, cases, shard=30)
+    for path, err in errors:
+        ctx.broken_obligation("correspondence:spinham_tensor:" + path.split("/")[-1], err)
+    for c in failed[:6]:
+        ctx.broken_obligation("correspondence:spinham_tensor:spin_ham_mpo_tensor_vs_model", info[c])
+    ctx.extra["spinham_tensor_cases"] = len(cases)
+
+
+def json_safe(x):
+    if isinstance(x, dict):
+        return {str(k): json_safe(v) for k, v in x.items()}
+    if isinstance(x, (list, tuple)):
+        return [json_safe(v) for v in x]
+    if isinstance(x, complex):
+        return str(x)
+    return x
+
+
 def ref_sum(n, terms):
     """sum of coeff * product of embedded named operators (site = register)"""
     return ref_matrix(terms, {i: i for i in range(n)}, n)
@@ -702,11 +1145,13 @@ def run(ctx):
     ]
     ctx.assumptions += ["term-list semantics reference: ordered product of embedded named 2x2 operators with the "
                         "library's documented operator names; Jordan-Wigner string = Z on all lower registers"]
-    ctx.check_props(["C19/Model.vo", "C19/Proofs.vo", "C19/Props.v"])
+    ctx.check_props(["C19/Model.vo", "C19/Proofs.vo", "C19/SpinHam.vo", "C19/SpinHamProofs.vo", "C19/Props.v"])
     ctx.stage(rank_correspondence)
     ctx.stage(hilbert_api)
     ctx.stage(representations)
     ctx.stage(model_builders)
+    ctx.stage(spinham_tensor_stream)
+    ctx.stage(spinham_stream)
     ctx.stage(matrix_generators)
     ctx.stage(history_stream)
     ctx.stage(ordering_stream)
